@@ -1309,6 +1309,25 @@ class KInterp:
             opn = 'lshr' if m.group(2) == 'r' else 'shl'
             k64 = const(k.cval(), 64)
             return s.vmap(st, ins.dst, [v], lambda case, x: s._shift1(case, opn, x, k64), len(v))
+        m = re.match(r'llvm\.u(min|max)\.(v\d+)?i64$', name)
+        if m:
+            # unsigned minimum / maximum per 64-bit element: partition on the comparison
+            def pick(case, x, y, kind=m.group(1)):
+                x = s.tokv(case, s.resolve(case, x))
+                y = s.tokv(case, s.resolve(case, y))
+                if x.sh != y.sh:
+                    raise Undecided('unsigned min/max of a shifted and an unshifted value')
+                if x.sh:
+                    raise Undecided('unsigned min/max on shifted values')
+                out = []
+                for c2, gt in decide_gt(case, x, y):
+                    big, small = (x, y) if gt else (y, x)
+                    out.append((c2, small if kind == 'min' else big))
+                return out
+            a0, a1 = args[0], args[1]
+            if isinstance(a0, list) or isinstance(a1, list):
+                return s.vmap(st, ins.dst, [a0, a1], pick, len(a0) if isinstance(a0, list) else len(a1))
+            return s.setv(st, ins.dst, pick(st.case, a0, a1))
         m = re.match(r'llvm\.u(add|sub)\.with\.overflow\.i(32|64)$', name)
         if m:
             # {result mod 2^w, carry / borrow}: partitioned on the flag, like the hardware adc/sbb idioms
